@@ -3,6 +3,7 @@
 pub mod floats;
 pub mod generic;
 pub mod ints;
+pub mod qregime;
 pub mod quat;
 pub mod util;
 pub mod xform;
@@ -91,6 +92,12 @@ pub fn property() -> Property {
     tape!("slerp-switch-f32", th, 96, 5_000, 300_000, quat::thresh_f32);
     tape!("slerp-switch-f64", th, 96, 5_000, 300_000, quat::thresh_f64);
     tape!("slerp-mixed-factor", "Slerp<f32> for Quaternion<f64> and &Quaternion<f64>: the factor goes through Into, clamped form clamps", 96, 2_000, 100_000, quat::slerp_mixed);
+    let sp = "slerp of RELATED unit pairs (bit-identical, bitwise adjacent, 2..64 ulps apart, 4D angle pinned 1e-2..1e-12, around the fallback switch sqrt(2 eps), log-uniform 1..1e-13, moderate; each also with the target negated = nearly antipodal) x unclamped factors (inside [0,1], just outside, +-1.5 / 3 / 50 / 1000 / 1e6, log-uniform to 1e6): for inherent slerp / slerp_unclamped, Slerp for Quaternion and &Quaternion, the orientation of Lerp for Transform / &Transform (fast, precise, clamped, range) and of all 8 Transition<Transform> accessors, each judged by the plain-array oracle: |norm - 1| <= 6 eps (1 + (pi/2)(|1-t|+|t|)) for EVERY factor (linear in |t|: first-order rounding of any weighted-sum formula); result within eps (3 + 0.75 (pi/2)(|1-t|+|t|)) of span{from,to}; position = from rotated towards the near representative of to by t*theta (theta >= 8 sqrt(eps): exact arc point within 4 eps (1 + (pi/2)(|1-t|+|t|)); below: the normalised lerp point within 3 eps (1 + ..) + |t| theta (1+|t|)^2 (theta^2 + 8 eps), i.e. to first order), asserted while the bound is below 1e-2";
+    tape!("slerp-pair-f32", sp, 160, 6_000, 400_000, qregime::slerp_pair_f32);
+    tape!("slerp-pair-f64", sp, 160, 6_000, 400_000, qregime::slerp_pair_f64);
+    let ns = "nlerp (Lerp for Quaternion / &Quaternion, fast and precise, clamped, all range forms, 8 Transition<Quaternion> accessors; 24 results per case) of NON-UNIT endpoints = directions (incl. antipodal, tiny-angle, identical) x magnitudes m 2^k with k over the whole range where the squared length stays normal (f32 +-60, f64 +-500; pinned: both ends of the range, just below sqrt(eps)), equal and different magnitudes (ratio up to 2^20), factors inside and outside [0,1] up to +-1000: every result has |norm - 1| <= 3 eps and is within 1.5 err/|lerp| + 3 eps (err = first-order rounding bound of the fast resp. precise component formula) of the normalised component-wise lerp computed on plain arrays after exact rescaling by 2^-k; unit norm excluded only where the lerped vector is shorter than 8 x 1.5 err (it cancels down to its own rounding error; relative, never absolute) or leaves the squaring range, direction additionally where its bound exceeds 0.1; two factors with distinguishable lerped directions give different results";
+    tape!("nlerp-scaled-f32", ns, 128, 6_000, 400_000, qregime::nlerp_scaled_f32);
+    tape!("nlerp-scaled-f64", ns, 128, 6_000, 400_000, qregime::nlerp_scaled_f64);
 
     // --- Transform, Transition ---------------------------------------------------------------------------
     let tf = "Lerp for Transform and &Transform, fast / precise / clamped / range forms: == (lerp position, slerp orientation, lerp scale) with the pieces called directly, and against the independent oracle (exact component lerp, reference slerp); ends";
@@ -103,13 +110,15 @@ pub fn property() -> Property {
 
     Property {
         id: "C12",
-        rule: "integer impls: index = (factor k/16, from, to) enumerated exhaustively over all 2^16 pairs of i8 and of u8 at the 9 core factors (quick) / all 49 factors k in -16..=32 (thorough; a seeded sample of it in quick); everything else: byte tapes generated by proptest (uniform bytes, fixed seed) decoded to endpoints and factors (factor classes: 0, 1, 1/2, outside [0,1], random). A case is non-trivial when from != to (every lane / member) and the factor is neither 0 nor 1 (integers: additionally labelled tie / range-limit endpoint / to<from; vectors: the per-lane factor is not constant; slerp: theta >= 1e-3 and the arc choice is not ambiguous); distinct = distinct index resp. consumed tape prefix per check",
+        rule: "integer impls: index = (factor k/16, from, to) enumerated exhaustively over all 2^16 pairs of i8 and of u8 at the 9 core factors (quick) / all 49 factors k in -16..=32 (thorough; a seeded sample of it in quick); everything else: byte tapes generated by proptest (uniform bytes, fixed seed) decoded to endpoints and factors (factor classes: 0, 1, 1/2, outside [0,1], random). A case is non-trivial when from != to (every lane / member) and the factor is neither 0 nor 1 (integers: additionally labelled tie / range-limit endpoint / to<from; vectors: the per-lane factor is not constant; slerp: theta >= 1e-3 and the arc choice is not ambiguous; slerp-pair: to is neither from nor -from bit for bit; nlerp-scaled: from != to and the scale exponent k != 0); distinct = distinct index resp. consumed tape prefix per check",
         assumptions: &[
             "rustc and the proptest runner/shrinker are trusted; the harness is built with overflow-checks and debug-assertions on, a panic inside vek is a failure",
             "integer oracle: i128 arithmetic on sixteenths, round half away from zero; dyadic factors k/16 are exact in f32 and f64; asserted only when the exact result is representable in the integer type and (wider types) every intermediate of the documented formula is exactly representable in the factor's float type, so the only rounding is the final round-to-integer",
             "exact arithmetic for generic code: vkit::Rat (i128 rationals; its two required Lerp methods are harness code, the provided methods under test are vek's)",
             "float oracle: double-double evaluation of from + t(to-from) (error O(eps^2)); bounds derived from the documented formulas from + t(to-from) and from(1-t) + to t with at most 3 roundings",
             "quaternion oracle on plain f64 arrays: angle = 2 atan2(|u-v|, |u+v|), slerp weights sin((1-t)theta)/sin(theta), sin(t theta)/sin(theta); inputs are unit to rounding of the scalar type; tolerance 16 eps (1+|t|)^3; pairs with |dot| < 64 eps have no unique shorter arc and only unit-ness and the ends are asserted there; nlerp is not asserted where the component lerp is shorter than 1e-3 (the midpoint of antipodal inputs is 0/0)",
+            "slerp-pair (related pairs x unclamped factors): both operands are unit to rounding of the scalar type (| |q| - 1 | <= 1.5 eps; nudged pairs further off are projected back onto the sphere); the unit-norm bound 6 eps (1 + (pi/2)(|1-t|+|t|)) grows linearly in |t| (first-order rounding of a weighted sum whose weights grow like |t|: input norm error, rounded arguments (1-t) theta and t theta, two sines, two scalings, sum, division) - an error quadratic in t is a violation (finding F17, fixed); the position on the arc is asserted only while its own bound is below 1e-2 (f32 with |t| theta beyond ~1e4 has no digits of t theta left: only unit norm and the plane are asserted there); for theta < 8 sqrt(eps) the documented near-parallel fallback (normalised lerp) may or may not run - its switch point is not part of the contract - so the position is asserted against the normalised lerp with a relative rotation-angle slack (1+|t|)^2 (theta^2 + 8 eps), i.e. to first order, and only while that slack is <= 1e-2; theta is the angle to the representative of `to` with non-negative dot (no pair of this class comes within 64 eps of orthogonal)",
+            "nlerp-scaled: the oracle is the component-wise lerp (double-double) of the endpoints handed to vek after exact rescaling by 2^-k, normalised in f64; nothing is asserted where the lerped 4-vector is shorter than 12 err, err = eps/2 (|t| |to-from|-bound (|from|+|to|) + |lerp|) for the fast and eps (|1-t| |from| + |t| |to|/2 + |lerp|/2) for the precise formula, i.e. cancels down to the rounding error of the component lerp (relative to the endpoint magnitudes: antipodal ends at factor ~1/2), or where its length times 2^k leaves [2^-(KMAX+1), 2^(KMAX+2)] (KMAX = 60 / 500: the squared length would leave the normal range); the direction is not asserted where its bound 1.5 err/|lerp| + 3 eps exceeds 0.1 (the unit norm still is); a lane that underflows to a subnormal under the scaling is taken at its scaled value",
             "Transform / Transition differential checks call vek's Lerp / Slerp impls of the members (themselves judged by the other checks of this property); Probe elements record the invoked required method, operands and factor",
         ],
         checks,
